@@ -125,7 +125,7 @@ func c19BodyStr(b Body) string {
 	case *BGP4MPMessage:
 		pl := x.BGPMessagePayload
 		if pl == nil && x.BGPMessage != nil {
-			pl, _ = x.BGPMessage.Serialize()
+			pl, _ = x.BGPMessage.Serialize(x.bgpMessageOption())
 		}
 		return fmt.Sprintf("%+v %v %v %s", *x.BGP4MPHeader, x.isLocal, x.isAddPath, c19Hex(pl))
 	case *Rib:
@@ -188,7 +188,7 @@ func c19B4Str(b Body, full bool) string {
 	case *BGP4MPMessage:
 		pl := x.BGPMessagePayload
 		if pl == nil && x.BGPMessage != nil {
-			pl, _ = x.BGPMessage.Serialize()
+			pl, _ = x.BGPMessage.Serialize(x.bgpMessageOption())
 		}
 		if !full { // a mutated message may re-serialise in normalised form: only its extent is compared
 			return fmt.Sprintf("msg %s len %d", c19B4Hdr(x.BGP4MPHeader), x.BGPMessage.Header.Len)
@@ -307,7 +307,7 @@ func c19AskSer(o *vOut, m *MRTMessage, b []byte) {
 		}
 		pl := x.BGPMessagePayload
 		if pl == nil {
-			pl, _ = x.BGPMessage.Serialize()
+			pl, _ = x.BGPMessage.Serialize(x.bgpMessageOption())
 		}
 		o.ask(c19Hex(body), "mrt.bgp4mpser %d msg %s %s", as4, c19B4Hdr(x.BGP4MPHeader), c19Hex(pl))
 	default:
@@ -377,13 +377,22 @@ func (g *c19Gen) v6() netip.Addr {
 	return netip.AddrFrom16(a)
 }
 
-func (g *c19Gen) attrs(v6 bool, fam bgp.Family, nlri bgp.NLRI, pathID uint32) []bgp.PathAttributeInterface {
+func (g *c19Gen) attrs(v6 bool, fam bgp.Family, nlri bgp.NLRI, pathID uint32, as2 ...bool) []bgp.PathAttributeInterface {
 	r := g.r
+	two := len(as2) > 0 && as2[0] // the speaker has no 4-octet AS capability: 2-octet AS_PATH
 	segs := []bgp.AsPathParamInterface{}
 	for k := r.intn(3); k >= 0; k-- {
 		as := []uint32{}
 		for j := 1 + r.intn(4); j > 0; j-- {
 			as = append(as, uint32(r.pick(1, 65000, 65535, 65536, 4200000000, int(r.u32()>>1))))
+		}
+		if two {
+			as16 := make([]uint16, len(as))
+			for j, a := range as {
+				as16[j] = uint16(a)
+			}
+			segs = append(segs, bgp.NewAsPathParam(uint8(1+r.intn(2)), as16))
+			continue
 		}
 		segs = append(segs, bgp.NewAs4PathParam(uint8(1+r.intn(2)), as))
 	}
@@ -420,7 +429,7 @@ func (g *c19Gen) attrs(v6 bool, fam bgp.Family, nlri bgp.NLRI, pathID uint32) []
 	return p
 }
 
-func (g *c19Gen) bgpMsg() (*bgp.BGPMessage, string) {
+func (g *c19Gen) bgpMsg(as4 bool) (*bgp.BGPMessage, string) {
 	r := g.r
 	switch r.intn(4) {
 	case 0:
@@ -433,7 +442,7 @@ func (g *c19Gen) bgpMsg() (*bgp.BGPMessage, string) {
 		return bgp.NewBGPNotificationMessage(uint8(1+r.intn(6)), uint8(r.intn(10)), []byte{byte(r.next())}), "notification"
 	}
 	pfx, _ := bgp.NewIPAddrPrefix(netip.PrefixFrom(g.v4(), 8+r.intn(25)).Masked())
-	return bgp.NewBGPUpdateMessage(nil, g.attrs(false, bgp.RF_IPv4_UC, pfx, 0), []bgp.PathNLRI{{NLRI: pfx}}), "update"
+	return bgp.NewBGPUpdateMessage(nil, g.attrs(false, bgp.RF_IPv4_UC, pfx, 0, !as4), []bgp.PathNLRI{{NLRI: pfx, ID: g.r.u32()}}), "update"
 }
 
 // one constructible record of every kind; label names the kind for the histogram
@@ -524,7 +533,7 @@ func (g *c19Gen) record(kind int) (*MRTMessage, string, error) {
 		if r.chance(50) {
 			p, l = g.v6(), g.v6()
 		}
-		bm, what := g.bgpMsg()
+		bm, what := g.bgpMsg(as4)
 		mk := NewBGP4MPMessage
 		sub := MESSAGE
 		switch {
@@ -543,7 +552,7 @@ func (g *c19Gen) record(kind int) (*MRTMessage, string, error) {
 			return nil, "", err
 		}
 		if r.chance(30) { // the daemon hands the raw payload instead of a parsed message
-			b.BGPMessagePayload, _ = bm.Serialize()
+			b.BGPMessagePayload, _ = bm.Serialize(b.bgpMessageOption())
 			b.BGPMessage = nil
 		}
 		m, err := NewMRTMessage(ts, BGP4MP, sub, b)
